@@ -8,7 +8,8 @@ WT = os.environ.get("REGRESS_WT", "/repo")      # tree the changes are applied t
 ENV = dict(os.environ, ARK_REPO=WT)
 ALT = {"C04-A": ["C15"], "C04-r2A": ["C15"], "C10-B": ["C12"], "C11-A": ["C16"], "C19-r2B": ["C03"], "C08-r2B": ["C14"],
        "C14-A": ["C07"], "C14-B": ["C07"], "C14-r2A": ["C01"], "C20-r2B": ["C16"], "C06-r3A": ["C14"], "C01-r3A": ["C14"], "C11-r3A": ["C16"], "C12-r3B": ["C03"], "C19-r3A": ["C01"], "C19-r3B": ["C08"], "C16-r3B": ["C12"],
-       "C08-r4B": ["C16"], "C07-r4B": ["C16"], "C05-r4B": ["C03"], "C09-r4B": ["C01"], "C10-r4B": ["C03"], "C12-r4B": ["C03"], "C11-r4A": ["C10"], "C13-r4B": ["C03"], "C16-r4A": ["C07"], "C18-r4B": ["C14"], "C17-r4B": ["C19"], "C19-r4B": ["C20"]}
+       "C08-r4B": ["C16"], "C07-r4B": ["C16"], "C05-r4B": ["C03"], "C09-r4B": ["C01"], "C10-r4B": ["C03"], "C12-r4B": ["C03"], "C11-r4A": ["C10"], "C13-r4B": ["C03"], "C16-r4A": ["C07"], "C18-r4B": ["C14"], "C17-r4B": ["C19"], "C19-r4B": ["C20"],
+       "C09-r5B": ["C03"], "C04-r5B": ["C03"]}
 
 
 def main():
